@@ -8,6 +8,8 @@
     `.op (.call …)`, `.op (.define …)`
 -/
 import YtkProofs.Pipeline
+import YtkProofs.PipelineWF
+import YtkProofs.PipelineLoop
 
 namespace Ytk.C14
 open Ytk.Pipeline
@@ -149,6 +151,141 @@ theorem loop_stops_on_post_error (n : Nat) (t : String) (b pa : Action) (st : St
       .test t (some true) :: ((run n (.doAct b) st).tr ++ (run n (.act pa) (run n (.doAct b) st).st).tr) := by
   rw [loop_step _ _ _ _ _ h]; simp [Res.pre, Res.andThen, hb, hp]
 
+/-! ### fuel, and the closed n-fold form of a loop
+
+  `iterSt n b p i st` (YtkProofs/PipelineLoop.lean) is the state after `i` iterations of "body, then
+  post-action" started in `st`, body and post-action run with fuel `n` (`iterSt_zero`, `iterSt_succ`). -/
+
+/-- fuel monotonicity: a run that did not run out of fuel is the same run with any larger fuel -/
+theorem fuel_mono (n m : Nat) (h : n ≤ m) (t : Task) (st : St) (hne : (run n t st).err ≠ some .fuel) :
+    run m t st = run n t st := run_mono h t st hne
+
+theorem iterSt_zero (n : Nat) (b : Action) (p : Option Action) (st : St) : iterSt n b p 0 st = st := rfl
+
+/-- the state after `i + 1` iterations is what the post-action (if any), started where the body ended,
+    leaves — body started in the state after `i` iterations -/
+theorem iterSt_succ (n : Nat) (b : Action) (p : Option Action) (i : Nat) (st : St) :
+    iterSt n b p (i + 1) st =
+      match p with
+      | none => (run n (.doAct b) (iterSt n b p i st)).st
+      | some pa => (run n (.act pa) (run n (.doAct b) (iterSt n b p i st)).st).st := by
+  rw [iterSt_succ']
+  cases p <;> rfl
+
+/-- Closed form, loop with a post-action.  If on the states before the first `k` iterations the test is
+    true and body and post-action end without error (with fuel `n`), and on the state after `k` iterations
+    the test is false, then for every fuel `m ≥ n + k + 1` the loop ends without error, in the `k`-fold
+    iterate, and its trace is (test · body · post)ᵏ · test:
+    the concatenation over `i < k` of `test true :: body trace_i ++ post trace_i`, then `test false`. -/
+theorem loop_trace (n : Nat) (t : String) (b pa : Action) (k : Nat) (st : St) (m : Nat)
+    (htrue : ∀ i, i < k → evalBool t (iterSt n b (some pa) i st).data = some true)
+    (hbody : ∀ i, i < k → (run n (.doAct b) (iterSt n b (some pa) i st)).err = none)
+    (hpost : ∀ i, i < k → (run n (.act pa) (run n (.doAct b) (iterSt n b (some pa) i st)).st).err = none)
+    (hfalse : evalBool t (iterSt n b (some pa) k st).data = some false)
+    (hm : n + k + 1 ≤ m) :
+    (run m (.loopIter t b (some pa)) st).err = none ∧
+    (run m (.loopIter t b (some pa)) st).st = iterSt n b (some pa) k st ∧
+    (run m (.loopIter t b (some pa)) st).tr =
+      ((List.range k).flatMap fun i =>
+        .test t (some true) :: ((run n (.doAct b) (iterSt n b (some pa) i st)).tr ++
+          (run n (.act pa) (run n (.doAct b) (iterSt n b (some pa) i st)).st).tr)) ++
+      [.test t (some false)] := by
+  rw [loopIter_closed n t b (some pa) k st m ⟨fun i hi => ⟨htrue i hi, hbody i hi, hpost i hi⟩, hfalse⟩ hm]
+  exact ⟨rfl, rfl, rfl⟩
+
+/-- Closed form, loop without post-action: (test · body)ᵏ · test -/
+theorem loop_trace_nopost (n : Nat) (t : String) (b : Action) (k : Nat) (st : St) (m : Nat)
+    (htrue : ∀ i, i < k → evalBool t (iterSt n b none i st).data = some true)
+    (hbody : ∀ i, i < k → (run n (.doAct b) (iterSt n b none i st)).err = none)
+    (hfalse : evalBool t (iterSt n b none k st).data = some false)
+    (hm : n + k + 1 ≤ m) :
+    (run m (.loopIter t b none) st).err = none ∧
+    (run m (.loopIter t b none) st).st = iterSt n b none k st ∧
+    (run m (.loopIter t b none) st).tr =
+      ((List.range k).flatMap fun i =>
+        .test t (some true) :: (run n (.doAct b) (iterSt n b none i st)).tr) ++ [.test t (some false)] := by
+  rw [loopIter_closed n t b none k st m ⟨fun i hi => ⟨htrue i hi, hbody i hi, rfl⟩, hfalse⟩ hm]
+  refine ⟨rfl, rfl, ?_⟩
+  simp [iterTrace, iterEvents, iterPost, iterBody, Res.ok]
+
+/-- The loop operation as the executor runs it (`Execute(LoopOp)`): the init action — if there is one —
+    runs once, before the first test, then the closed form; everything inside one before/after pair.
+    `iterPost n i st` is `Execute(init)` with fuel `n` (the unchanged state and no events when `i = none`),
+    `iterTrace` the (test · body · post)ᵏ part (`iterTrace_eq`). -/
+theorem loop_op_trace (n : Nat) (i : Option Action) (t : String) (b : Action) (p : Option Action) (k : Nat)
+    (st : St) (m : Nat) (hi : (iterPost n i st).err = none)
+    (h : TestsTrueFor n t b p k (iterPost n i st).st) (hm : n + k + 1 ≤ m) :
+    run (m + 1) (.op (.loop i t b p)) st =
+      ⟨.before "loop" :: ((iterPost n i st).tr ++
+          (iterTrace n t b p k (iterPost n i st).st ++ [.test t (some false)])) ++ [.after "loop" none],
+        iterSt n b p k (iterPost n i st).st, none⟩ :=
+  loop_op_closed n i t b p k st m hi h hm
+
+theorem iterTrace_eq (n : Nat) (t : String) (b : Action) (p : Option Action) (k : Nat) (st : St) :
+    iterTrace n t b p k st =
+      (List.range k).flatMap fun i =>
+        .test t (some true) :: ((run n (.doAct b) (iterSt n b p i st)).tr ++
+          (match p with
+            | none => []
+            | some pa => (run n (.act pa) (run n (.doAct b) (iterSt n b p i st)).st).tr)) := by
+  cases p <;> rfl
+
+theorem iterPost_eq (n : Nat) (i : Option Action) (st : St) :
+    iterPost n i st = match i with
+      | none => Res.ok st
+      | some a => run n (.act a) st := rfl
+
+theorem testsTrueFor_iff (n : Nat) (t : String) (b : Action) (p : Option Action) (k : Nat) (st : St) :
+    TestsTrueFor n t b p k st ↔
+      (∀ i, i < k → evalBool t (iterSt n b p i st).data = some true ∧
+        (run n (.doAct b) (iterSt n b p i st)).err = none ∧
+        (iterPost n p (run n (.doAct b) (iterSt n b p i st)).st).err = none) ∧
+      evalBool t (iterSt n b p k st).data = some false := Iff.rfl
+
+/-! ### the closed form of forEach
+
+  `itemRes n v b it st` = performWithItem for the item `it` (resolved against `st`'s data) with fuel `n`;
+  `itemsSt` / `itemsTrace` / `ItemsOk` thread the state through the items (YtkProofs/PipelineLoop.lean;
+  `items_unfold`). -/
+
+theorem items_unfold (n : Nat) (v : String) (b : Action) (it : ItemE) (its : List ItemE) (st : St) :
+    itemRes n v b it st = run n (.item v b (it.resolve st.data)) st ∧
+    itemsSt n v b [] st = st ∧ itemsSt n v b (it :: its) st = itemsSt n v b its (itemRes n v b it st).st ∧
+    itemsTrace n v b [] st = [] ∧
+    itemsTrace n v b (it :: its) st = (itemRes n v b it st).tr ++ itemsTrace n v b its (itemRes n v b it st).st ∧
+    (ItemsOk n v b [] st ↔ True) ∧
+    (ItemsOk n v b (it :: its) st ↔ (itemRes n v b it st).err = none ∧ ItemsOk n v b its (itemRes n v b it st).st) :=
+  ⟨rfl, rfl, rfl, rfl, rfl, Iff.rfl, Iff.rfl⟩
+
+/-- every iteration ends without error: the trace is the concatenation of the iterations' traces in item
+    order, each iteration starting from the data the previous one left (fuel `m ≥ n + #items + 1`) -/
+theorem forEach_trace_closed (n : Nat) (v : String) (b : Action) (its : List ItemE) (st : St) (m : Nat)
+    (h : ItemsOk n v b its st) (hm : n + its.length + 1 ≤ m) :
+    run m (.items v b its) st = ⟨itemsTrace n v b its st, itemsSt n v b its st, none⟩ :=
+  items_closed n v b its st m h hm
+
+/-- the iteration of item number `pre.length` fails with `e`: trace = the traces of the items up to and
+    including the failing one, the result is the failing iteration's; no later item runs -/
+theorem forEach_trace_failing (n : Nat) (v : String) (b : Action) (pre : List ItemE) (it : ItemE)
+    (post : List ItemE) (e : Err) (he : e ≠ .fuel) (st : St) (m : Nat) (h : ItemsOk n v b pre st)
+    (hf : (itemRes n v b it (itemsSt n v b pre st)).err = some e) (hm : n + pre.length + 1 ≤ m) :
+    run m (.items v b (pre ++ it :: post)) st =
+      ⟨itemsTrace n v b pre st ++ (itemRes n v b it (itemsSt n v b pre st)).tr,
+        (itemRes n v b it (itemsSt n v b pre st)).st, some e⟩ :=
+  items_failing n v b it post e he pre st m h hf hm
+
+/-- the operation as the executor runs it -/
+theorem forEach_op_trace_closed (n : Nat) (q : Option VoR) (its : Option (List VoR)) (v : Option String)
+    (b : Action) (st : St) (m : Nat)
+    (h : ItemsOk n (v.getD "forEach") b (itemsOf q its st.data) st)
+    (hm : n + (itemsOf q its st.data).length + 1 ≤ m) :
+    run (m + 1) (.op (.forEach q its v b)) st =
+      wrap ("forEach:" ++ v.getD "forEach")
+        ⟨itemsTrace n (v.getD "forEach") b (itemsOf q its st.data) st,
+          itemsSt n (v.getD "forEach") b (itemsOf q its st.data) st, none⟩ := by
+  simp only [run, Op.label]
+  rw [items_closed n _ b _ st m h hm]
+
 /-! ### call / define -/
 
 /-- calling an undefined name is an error; nothing runs and nothing changes -/
@@ -229,20 +366,89 @@ theorem lookupSegs_removeAtSegs : ∀ (segs : List String) (kvs : AMap Node),
     · rename_i hnc
       simp only [lookupSegs, child_of_noSuffix _ hx]
 
-/-- dotted arguments path, PARTIAL: the statement needs the callee's final data to be well formed
-    (unique keys at every level).  That `run` preserves deep well-formedness is not proved here (it needs
-    WF-preservation of dom merge / addValueAt at depth); the top-level part is `sorted_run`.
-    Full statement wanted: the same without `hwf`, from `Node.WF (.cont st.data)`. -/
-theorem call_args_gone_dotted_partial (n : Nat) (name : String) (ap : Option String) (args : Node) (spec : Action)
+/-! ### deep well-formedness is an invariant of the interpreter
+
+  `Node.WF (.cont d)`: every container of the document, at every depth, has strictly sorted — hence
+  unique — keys, i.e. it is a Go map.  The programs of the model carry document literals as `Node`s (the
+  `Data` of a SetOp, the `Args` of a CallOp; both are `map[string]interface{}` in the Go code), so the
+  invariant has a program side: `Task.LitWF t` / `Action.LitWF a` — every such literal, at any depth of
+  sub-actions, is itself `WF` (defined in YtkProofs/PipelineWF.lean; CloneWith preserves it).  For the Go
+  code this side holds by construction (a Go map cannot hold a key twice); in the model it has to be said,
+  and `run_wf_literal_counterexample` / `call_args_gone_dotted_literal_counterexample` show that the
+  statements are false for a model program with a duplicate-key literal.  No operation of the model is
+  excluded: set (merge / replace, path and root forms), template, log, abort, ext (trace / fail / inc),
+  forEach (all item sources), loop, call, define, at every nesting depth and for every fuel. -/
+
+/-- Deep well-formedness of the data is an invariant of `run`: for every fuel, every task whose literals
+    are well formed, every state whose registered callables have well-formed literals. -/
+theorem run_wf (n : Nat) (t : Task) (st : St) (ht : t.LitWF) (hdefs : ∀ p ∈ st.defs, p.2.LitWF)
+    (h : Node.WF (.cont st.data)) : Node.WF (.cont (run n t st).st.data) :=
+  (run_wf_inv n t st ht ⟨h, hdefs⟩).1
+
+/-- the program side of the invariant: the registry only ever holds callables with well-formed literals -/
+theorem run_defs_litWF (n : Nat) (t : Task) (st : St) (ht : t.LitWF) (hdefs : ∀ p ∈ st.defs, p.2.LitWF)
+    (h : Node.WF (.cont st.data)) : ∀ p ∈ (run n t st).st.defs, p.2.LitWF :=
+  (run_wf_inv n t st ht ⟨h, hdefs⟩).2
+
+/-- the same for a caller's sequence of top-level `Execute(op)` calls on one executor -/
+theorem runSeq_wf (n : Nat) : ∀ (os : List Op) (st : St), (∀ o ∈ os, o.LitWF) → (∀ p ∈ st.defs, p.2.LitWF) →
+    Node.WF (.cont st.data) → Node.WF (.cont (runSeq n os st).2.1.data)
+  | [], _, _, _, h => h
+  | o :: os, st, hos, hdefs, h => by
+    have hr := run_wf_inv n (.op o) st (hos o (List.mem_cons_self ..)) ⟨h, hdefs⟩
+    exact runSeq_wf n os _ (fun o' ho' => hos o' (List.mem_cons_of_mem _ ho')) hr.2 hr.1
+
+/-- the literal hypothesis cannot be dropped in the model: a SetOp whose `Data` literal is not a map
+    (keys `b`, `a` out of order below `k`) stores that literal as it is -/
+theorem run_wf_literal_counterexample :
+    let o : Op := .set (some (.cont [("k", .cont [("b", .leaf ⟨"int", "1"⟩), ("a", .leaf ⟨"int", "2"⟩)])])) ""
+      (some "replace")
+    Node.WF (.cont ([] : AMap Node)) ∧ ¬ Node.WF (.cont (run 5 (.op o) ⟨[], []⟩).st.data) := by
+  refine ⟨wf_nil, ?_⟩
+  have hd : (run 5 (.op (.set (some (.cont [("k", .cont [("b", .leaf ⟨"int", "1"⟩), ("a", .leaf ⟨"int", "2"⟩)])])) ""
+      (some "replace"))) ⟨[], []⟩).st.data = [("k", .cont [("b", .leaf ⟨"int", "1"⟩), ("a", .leaf ⟨"int", "2"⟩)])] := by
+    decide +kernel
+  intro h
+  rw [hd] at h
+  have h2 : Node.WF (.cont [("b", .leaf ⟨"int", "1"⟩), ("a", .leaf ⟨"int", "2"⟩)]) :=
+    h.of_cont_get (k := "k") rfl
+  have h3 : "b" < "a" := h2.sorted.head_lt ("a", _) (List.mem_cons_self ..)
+  exact absurd h3 (by decide)
+
+/-- dotted arguments path, full strength: after the call — normal or failing exit alike — nothing is left
+    at the arguments path, whatever the callable did in between (it may have replaced, merged into or
+    removed any part of the document, defined further callables, called others …).  From the well-formedness
+    of the data before the call only (plus the program side: `args` and the registered callables are
+    Go-map literals); the hypothesis about the callee's final data of the former `…_partial` version is
+    now the theorem `run_wf`. -/
+theorem call_args_gone_dotted (n : Nat) (name : String) (ap : Option String) (args : Node) (spec : Action)
     (st : St) (h : AMap.get? st.defs name = some spec)
     (hne : renderLenient (ap.getD "args") st.data ≠ "")
     (hseg : ∀ s ∈ splitPath (renderLenient (ap.getD "args") st.data), hasIdxSuffix s = false)
-    (hwf : Node.WF (.cont (run n (.act spec) (st.setData (addValueAt st.data (renderLenient (ap.getD "args") st.data)
-            (renderArgs st.data args)))).st.data)) :
+    (hwf : Node.WF (.cont st.data)) (hargs : args.WF) (hdefs : ∀ p ∈ st.defs, p.2.LitWF) :
     lookup (run (n + 1) (.op (.call name ap args)) st).st.data (renderLenient (ap.getD "args") st.data) = none := by
   rw [call_shape n name ap args spec st h]
   simp only [wrap, Res.mapSt, St.setData, lookup, hne, if_false, removeAt]
-  exact lookupSegs_removeAtSegs _ _ hwf hseg
+  refine lookupSegs_removeAtSegs _ _ ?_ hseg
+  exact run_wf n (.act spec) _ (hdefs (name, spec) (AMap.mem_of_get? h)) hdefs
+    (wf_addValueAt _ hwf (wf_renderArgs st.data hargs))
+
+/-- … and the data is still well formed afterwards -/
+theorem call_wf (n : Nat) (name : String) (ap : Option String) (args : Node) (st : St)
+    (hwf : Node.WF (.cont st.data)) (hargs : args.WF) (hdefs : ∀ p ∈ st.defs, p.2.LitWF) :
+    Node.WF (.cont (run n (.op (.call name ap args)) st).st.data) :=
+  run_wf n (.op (.call name ap args)) st hargs hdefs hwf
+
+/-- the program-side hypothesis is needed in the model: a callable whose SetOp literal holds the key `q`
+    twice leaves one of the two entries at the arguments path `p.q` behind -/
+theorem call_args_gone_dotted_literal_counterexample :
+    let body : Action := .mk "f" 0 none
+      [.set (some (.cont [("q", .leaf ⟨"int", "1"⟩), ("q", .leaf ⟨"int", "2"⟩)])) "p" (some "replace")] []
+    let st : St := ⟨[], [("f", body)]⟩
+    Node.WF (.cont st.data) ∧
+    lookup (run 30 (.op (.call "f" (some "p.q") (.cont []))) st).st.data "p.q" = some (.leaf ⟨"int", "2"⟩) := by
+  refine ⟨wf_nil, ?_⟩
+  decide +kernel
 
 /-! ### non-vacuity: concrete programs, evaluated by the kernel -/
 
@@ -256,6 +462,18 @@ theorem nonvacuous_forEach :
       (.mk "b" 0 none [.log "item={{ .i }}"] []))) ⟨exData, []⟩
     logsOf r.tr = ["item=a", "item=2"] ∧ r.err = none ∧ r.st.data = exData := by
   decide
+
+/-- the hypotheses of `forEach_trace_closed` hold for that loop (fuel 8 per iteration) -/
+theorem nonvacuous_forEach_closed :
+    ItemsOk 8 "i" (.mk "b" 0 none [.log "item={{ .i }}"] [])
+      (itemsOf (some ⟨false, "", "xs"⟩) none exData) ⟨exData, []⟩ := by
+  have e : itemsOf (some ⟨false, "", "xs"⟩) none exData =
+      [.node (.leaf ⟨"string", "a"⟩), .node (.leaf ⟨"int", "2"⟩)] := by
+    have hl : lookup exData (VoR.resolve ⟨false, "", "xs"⟩ exData) =
+        some (.list [.leaf ⟨"string", "a"⟩, .leaf ⟨"int", "2"⟩]) := by decide +kernel
+    simp only [itemsOf, hl, List.map]
+  rw [e]
+  exact ⟨by decide +kernel, by decide +kernel, trivial⟩
 
 /-- failing position: the abort (declared after log) fires in the first iteration; the variable is gone -/
 theorem nonvacuous_forEach_failure :
@@ -289,6 +507,51 @@ theorem nonvacuous_loop :
       ["init", "test:true", "body:true", "post", "test:true", "body:false", "post", "test:false"] := by
   decide
 
+/-- a counting loop inside the template micro-fragment: the body's TemplateOp increments the unary
+    counter `c` ("" ↦ "i" ↦ "ii" ↦ "iii"); the bound 3 is the shift register cur ← n1 ← n2 ← n3 = T T T F
+    moved by the post-action's children; the test reads `cur` -/
+def exCountBody : Action := .mk "body" 0 none [.template "{{ .c }}i" "c" false none, .log "body:{{ .c }}"] []
+def exCountPost : Action :=
+  .mk "post" 0 none [.log "post:{{ .c }}"]
+    [.mk "shift3" 3 none [.template "{{ .n3 }}" "n2" false none] [],
+     .mk "shift1" 1 none [.template "{{ .n1 }}" "cur" false none] [],
+     .mk "shift2" 2 none [.template "{{ .n2 }}" "n1" false none] []]
+def exCountInit : Action := .mk "init" 0 none [.template "true" "cur" false none] []
+def exCountSt0 : St :=
+  ⟨[("c", .leaf ⟨"string", ""⟩), ("n1", .leaf ⟨"string", "true"⟩), ("n2", .leaf ⟨"string", "true"⟩),
+    ("n3", .leaf ⟨"string", "false"⟩)], []⟩
+def exCountSt : St := ⟨AMap.insert exCountSt0.data "cur" (.leaf ⟨"string", "true"⟩), []⟩
+
+/-- the hypotheses of `loop_trace` hold for k = 3 (fuel 12 per body / post-action) … -/
+theorem nonvacuous_loop_trace_hyps :
+    (∀ i, i < 3 → evalBool "{{ .cur }}" (iterSt 12 exCountBody (some exCountPost) i exCountSt).data = some true) ∧
+    (∀ i, i < 3 → (run 12 (.doAct exCountBody) (iterSt 12 exCountBody (some exCountPost) i exCountSt)).err = none) ∧
+    (∀ i, i < 3 → (run 12 (.act exCountPost)
+        (run 12 (.doAct exCountBody) (iterSt 12 exCountBody (some exCountPost) i exCountSt)).st).err = none) ∧
+    evalBool "{{ .cur }}" (iterSt 12 exCountBody (some exCountPost) 3 exCountSt).data = some false := by
+  decide +kernel
+
+/-- … and the loop does what the closed form says: three iterations, body before post, counter at 3
+    afterwards; also through the operation wrapper, with an init action that sets `cur` first -/
+theorem nonvacuous_loop_trace :
+    seqOf (run 16 (.loopIter "{{ .cur }}" exCountBody (some exCountPost)) exCountSt).tr =
+      ["test:true", "body:i", "post:i", "test:true", "body:ii", "post:ii", "test:true", "body:iii", "post:iii",
+       "test:false"] ∧
+    (run 16 (.loopIter "{{ .cur }}" exCountBody (some exCountPost)) exCountSt).err = none ∧
+    lookup (run 16 (.loopIter "{{ .cur }}" exCountBody (some exCountPost)) exCountSt).st.data "c" =
+      some (.leaf ⟨"string", "iii"⟩) ∧
+    (run 16 (.loopIter "{{ .cur }}" exCountBody (some exCountPost)) exCountSt).st =
+      iterSt 12 exCountBody (some exCountPost) 3 exCountSt ∧
+    seqOf (run 18 (.op (.loop (some exCountInit) "{{ .cur }}" exCountBody (some exCountPost))) exCountSt0).tr =
+      ["test:true", "body:i", "post:i", "test:true", "body:ii", "post:ii", "test:true", "body:iii", "post:iii",
+       "test:false"] := by
+  obtain ⟨h1, h2, h3, h4⟩ := nonvacuous_loop_trace_hyps
+  have h := loop_trace 12 "{{ .cur }}" exCountBody exCountPost 3 exCountSt 16 h1 h2 h3 h4 (by omega)
+  refine ⟨?_, h.1, ?_, h.2.1, ?_⟩
+  · decide +kernel
+  · decide +kernel
+  · decide +kernel
+
 /-- call with a dotted arguments path: argument readable inside, path gone afterwards (the emptied
     intermediate container `p` remains), define twice: error, first kept -/
 def exF : Action := .mk "f" 0 none [.log "x={{ .p.q.x }}"] []
@@ -304,5 +567,33 @@ theorem nonvacuous_call :
     logsOf exR3.tr = ["x=N!"] ∧ lookup exR3.st.data "p.q" = none ∧
     exR4.st.data = [("name", .leaf ⟨"string", "N"⟩), ("p", .cont [])] := by
   decide
+
+/-- `run_wf` / `call_args_gone_dotted` on a concrete program: a callable that merges a nested literal
+    below the arguments path's parent and replaces the arguments themselves, called with a dotted arguments
+    path; all hypotheses hold, and so do the conclusions (evaluated independently by the kernel) -/
+def exG : Action :=
+  .mk "g" 0 none
+    [.set (some (.cont [("r", .cont [("u", .leaf ⟨"int", "1"⟩), ("v", .list [.cont [("k", .leaf ⟨"int", "2"⟩)]])])])) "p"
+      none]
+    [.mk "g1" 1 none [.set (some (.cont [("x", .leaf ⟨"int", "3"⟩), ("y", .leaf ⟨"int", "4"⟩)])) "p.q" (some "replace")] []]
+def exCallG : Op := .call "g" (some "p.q") (.cont [("x", .leaf ⟨"string", "{{ .name }}!"⟩)])
+def exS1 : St := ⟨[("name", .leaf ⟨"string", "N"⟩), ("p", .cont [("a", .leaf ⟨"int", "0"⟩)])], [("g", exG)]⟩
+
+theorem nonvacuous_run_wf :
+    Task.LitWF (.op exCallG) ∧ (∀ p ∈ exS1.defs, p.2.LitWF) ∧ Node.WF (.cont exS1.data) ∧
+    AMap.get? exS1.defs "g" = some exG ∧
+    renderLenient ((some "p.q").getD "args") exS1.data ≠ "" ∧
+    (∀ s ∈ splitPath (renderLenient ((some "p.q").getD "args") exS1.data), hasIdxSuffix s = false) ∧
+    (run 30 (.op exCallG) exS1).err = none ∧
+    (run 30 (.op exCallG) exS1).st.data =
+      [("name", .leaf ⟨"string", "N"⟩),
+       ("p", .cont [("a", .leaf ⟨"int", "0"⟩),
+                    ("r", .cont [("u", .leaf ⟨"int", "1"⟩), ("v", .list [.cont [("k", .leaf ⟨"int", "2"⟩)]])])])] := by
+  refine ⟨Op.litWF_of_b exCallG (by decide +kernel), ?_, wf_of_wfb _ (by decide +kernel), rfl,
+    by decide +kernel, by decide +kernel, by decide +kernel, by decide +kernel⟩
+  intro p hp
+  simp only [exS1, List.mem_singleton] at hp
+  subst hp
+  exact Action.litWF_of_b exG (by decide +kernel)
 
 end Ytk.C14
